@@ -388,7 +388,7 @@ func stmtsRecordError(pm *parserModel, n ast.Node, depth int) bool {
 		switch s := x.(type) {
 		case *ast.AssignStmt:
 			if len(s.Lhs) == 1 {
-				if _, fld := fieldOf(pm.info, s.Lhs[0]); fld == pm.errorsF {
+				if pm.isErrorsLHS(s.Lhs[0]) {
 					found = true
 				}
 			}
@@ -396,6 +396,10 @@ func stmtsRecordError(pm *parserModel, n ast.Node, depth int) bool {
 			if g := pm.w.FuncOf(calleeOf(pm.info, s)); g != nil && g.Rel == "parser" && depth < 3 {
 				sig := g.Obj.Type().(*types.Signature)
 				if sig.Recv() != nil && sig.Results().Len() == 0 && appendsErrorD(pm, g, depth+1) {
+					// (a method of the list's own type records into the list it is called on)
+					if rt, isPtr := sig.Recv().Type().(*types.Pointer); isPtr && types.Identical(rt.Elem(), pm.errorsF.Type()) && !pm.callOnErrors(s) {
+						return true
+					}
 					found = true
 				}
 			}
